@@ -49,6 +49,10 @@ class IntervalProd(Set):
         super(IntervalProd, self).__init__()
         self.__min_pt = np.atleast_1d(min_pt).astype('float64')
         self.__max_pt = np.atleast_1d(max_pt).astype('float64')
+        # The set is immutable, hence the (private copies of the) vectors
+        # are handed out read-only
+        self.__min_pt.flags.writeable = False
+        self.__max_pt.flags.writeable = False
 
         if self.min_pt.ndim > 1:
             raise ValueError('`min_pt` must be 1-dimensional, got an array '
